@@ -1099,10 +1099,10 @@ func plans() []plan {
 	}
 	ps = append(ps, plan{sc: scen{name: "S8-selfreattach", nprov: 2, pre: p2, threads: s8, gated: true}, weight: 1})
 	ps = append(ps,
-		// quick tier: two failures in the two-provider shapes, one (no retries) in the three-provider shape S3
+		// quick tier: two failures in S0 and S1, one in S4 and (no retries) in the three-provider shape S3
 		gf("S0-fault", 2, nil, s0, false, false, 2, 0, 5),
 		gf("S1-fault", 2, nil, s1, false, false, 2, 0, 10),
-		gf("S4-fault", 2, nil, s4, false, false, 2, 0, 16),
+		gf("S4-fault", 2, nil, s4, false, false, 1, 0, 3),
 		gf("S3-faultn", 3, p2, s3, false, true, 1, 0, 13),
 		// thorough tier: two failures incl. the lost-acknowledgement mode in the two-provider shapes;
 		// one failure in the three-provider shapes (S3 with retries, and all three with the
